@@ -284,6 +284,33 @@ def generate(tier, seed, mode=None):
                 _dist["shared Converter object"] += bool(f.get("conv_share"))
                 _dist["bare annotation"] += bool(f.get("bare"))
                 _dist["default=%s" % (f["default"] if isinstance(f["default"], (str, type(None))) else "factory")] += 1
+    # deterministic family: a hooked attrs base, an undecorated class, a dict leaf without hooks of its own (the leaf's
+    # generated __init__ assigns plainly; the base's hooks must not run during construction)
+    n_hooked = 30 if tier == "quick" else 300
+    made = 0
+    for _ in range(n_hooked * 6):
+        if made >= n_hooked:
+            break
+        uidc[0] += 1
+        bs = g.gen_class_spec(rng, "%d" % uidc[0], base=None, extras=True)
+        bs.update({"on_setattr": rng.choice(["user", "list_user2", "convert", "list_cv"]), "frozen": False, "exc": False,
+                   "init_false": False})
+        if not bs["fields"]:
+            continue
+        base = g.ClassUnderTest(bs)
+        if base.cls is None:
+            continue
+        uidc[0] += 1
+        ls = g.gen_class_spec(rng, "%d" % uidc[0], base=base, hooks_ok=False, extras=True)
+        ls.update({"slots": False, "frozen": False, "on_setattr": None, "plain_between": True, "init_false": False})
+        for f in ls["fields"]:
+            f["on_setattr"] = None
+        leaf = g.ClassUnderTest(ls)
+        if leaf.cls is None:
+            continue
+        cases.extend(cases_for(leaf, rng, counter, mode))
+        _dist["hooked base / undecorated class / hook-free dict leaf"] += 1
+        made += 1
     for i, c in enumerate(cases):
         c.inp["gen"] = {"tier": tier, "seed": seed, "mode": mode, "index": i}
     _dist["calls"] = sum(len(c.seen) if isinstance(c.seen, list) else 0 for c in cases)
